@@ -5,6 +5,8 @@
         cb     : -  |  A  |  R  |  E:<cidhex or *>:<uhex>:<phex>
         first  : T | X | P,<kind>,<lvl 0|1>,<keepalive>,<cidhex>,<clean 0|1>,<N|L>,<uhex>,<phex>
      EPI <ok|link|nio:<k>|nproto|nka|io:<k>|other> <timeout|fire|cancel|closed>
+     IDS <connect client id hex> <generated id hex>  -> assigned id, id registered with the router,
+                                                        id carried by Event::PublishWill
      ARM <v4|v5> <kind> <0|1>        -> current table, table before the F2 repair
      NOTIF <fwd0|fwd1|ack:<kind>|unsched|disc|shadow>  -> packet kind, props, both writers *)
 open Model
@@ -128,6 +130,12 @@ let () =
           let e = classify (parse_start r) in
           let d, p = epilogue e (parse_wait w) in
           Printf.printf "class=%s d=%s w=%s\n" (end_name e) (b d) (b p)
+      | [ "IDS"; cid; gen ] ->
+          let cid = unhex cid in
+          let ids = remote_ids cid (unhex gen) in
+          Printf.printf "assigned=%s reg=%s will=%s\n"
+            (match ids.id_assigned with Some a -> hex a | None -> "none")
+            (hex (registered_id cid ids)) (hex (will_event_id ids))
       | [ "ARM"; pr; k; props ] ->
           let pr = if pr = "v4" then V4 else V5 in
           Printf.printf "arm=%s unfixed=%s\n" (b (has_arm pr (kind_of k) (bool_of props)))
